@@ -102,7 +102,9 @@ def cli_check(text, tmp, io, exc, sig):
     import re
 
     want = "Problem: An unexpected error occurred" if isinstance(exc, UnexpectedError) else sstr(exc)
-    norm = lambda s: re.sub(r"0x[0-9a-fA-F]+", "0x", s)  # object reprs carry addresses that differ between the two runs
+    # object reprs carry addresses that differ between the two runs, and characters the terminal encoding cannot
+    # represent (lone surrogates, ...) are replaced on the way to stderr: compare the printable-ASCII skeleton
+    norm = lambda s: re.sub(r"\\u[0-9a-fA-F]{4}|\\x[0-9a-fA-F]{2}|[^\x20-\x7e\n]|\?", "", re.sub(r"0x[0-9a-fA-F]+", "0x", s))
     if norm(want) not in norm(stderr):
         fails.append(Failure("%s|cli_message_missing" % sig, "stderr %r lacks %r" % (stderr[-300:], want[:200])))
     return fails
